@@ -59,6 +59,7 @@ var trUnits = []*trUnit{
 		"Builder.Add", "Builder.Period", "Query.Into", "Sort", "Print"},
 		agree: map[string]string{"ComputePrices": "Process", "Valuate": "Process", "Filter": "Process", "CloseAccounts": "Process", "Query.Into": "Query",
 			"Sort": "JPrinter2", "Print": "JPrinter2"}},
+	{pkg: "lib/journal/beancount", mod: "Beancount", funcs: []string{"stripNonAlphanum", "writePosting", "writeTrx", "Transcode"}},
 	{pkg: "lib/reports/balance", mod: "Report", funcs: []string{"NewReport", "Report.Insert", "Report.SortAlpha", "Report.SortWeighted", "Report.Totals"}},
 }
 
@@ -237,6 +238,12 @@ func (t *trTranslator) mutParams(f *trFunc) {
 		switch p.Type().Underlying().(type) {
 		case *types.Pointer, *types.Map:
 			if assigned[p] {
+				f.mut = append(f.mut, i)
+				f.mutObjs = append(f.mutObjs, p)
+			}
+		case *types.Interface:
+			// an io.Writer parameter that is written to: the text written so far, returned first (trans_units_beancount.go)
+			if trIsWriter(p.Type()) && assigned[p] {
 				f.mut = append(f.mut, i)
 				f.mutObjs = append(f.mutObjs, p)
 			}
@@ -620,6 +627,9 @@ func trRun(repo string) (map[string]string, []string) {
 			b.WriteString("import Knut.GoSem.Fmt\n") // io.Writer, fmt's padding, strings.Join, Time.Format (trans_units_jprinter.go)
 		}
 		b.WriteString(trPerfImports(body.String() + strings.Join(t.decls[u], "\n")))
+		for _, imp := range trBeanImports(body.String()) {
+			b.WriteString(imp + "\n") // Regexp, Strings.HasPrefix, sortSlice (trans_units_beancount.go)
+		}
 		var imps []string
 		for v := range t.imports[u] {
 			imps = append(imps, "import Knut.Generated.Trans"+v.mod)
